@@ -281,114 +281,278 @@ Lemma pre_paren rec s e s' : rec 0%nat s = PMatch e (RP :: s') ->
   tfirst_pre rec 0 arith_table (LP :: s) = PMatch e s'.
 Proof. intros H. cbn. rewrite H. reflexivity. Qed.
 
-Lemma tparse_S f m s : tparse (S f) m s =
-  match tfirst_pre (tparse f) 0 arith_table s with
-  | PMatch e rest => tloop (tparse f) (S (length rest)) m e rest
-  | x => x
+(** ** the round trip, generic in the lexical level
+    [I] is the input type of a lexer [lx]; [enc ts] is the input that starts with the tokens [ts];
+    [cont ts] is what is left in front of the tokens [ts] after an operand has been parsed (for
+    characters: a blank, then [enc ts]).  The facts [TF] say how the pre-phase and the post-phase
+    of [parse] over the regenerated table react to the first token(s); they are proved by
+    computation for tokens (below) and for characters (Arith/CharProofs.v). *)
+Fixpoint lex_ok (okid : str -> Prop) (oknum : Z -> Prop) (e : aexpr) : Prop :=
+  match e with
+  | ELit z => oknum z
+  | ERef x _ => okid x
+  | EUn _ a => lex_ok okid oknum a
+  | EBin _ a b => lex_ok okid oknum a /\ lex_ok okid oknum b
+  | ECond c t f => lex_ok okid oknum c /\ lex_ok okid oknum t /\ lex_ok okid oknum f
+  | EAssign x _ a => okid x /\ lex_ok okid oknum a
+  | EIncr _ x _ => okid x
+  | EBinAssign _ x _ a => okid x /\ lex_ok okid oknum a
   end.
-Proof. reflexivity. Qed.
-
-(** ** the round trip *)
-Definition Lstmt (q : nat) (e : aexpr) (ts : T) (tq : nat) : Prop :=
-  forall m rest f, (m <= q)%nat -> follow_ok tq rest -> (length (ts ++ rest) <= f)%nat ->
-  exists n, (S (length rest) <= n)%nat /\ tparse (S f) m (ts ++ rest) = tloop (tparse f) n m e rest.
-
-(** (R) from (L): when the continuation cannot extend the expression at level [m], the call returns *)
-Lemma L_to_R q e ts tq : R q e ts tq -> Lstmt q e ts tq ->
-  forall m rest fuel, (m <= q)%nat -> follow_ok m rest -> (length (ts ++ rest) < fuel)%nat ->
-  tparse fuel m (ts ++ rest) = PMatch e rest.
-Proof.
-  intros HR HL m rest fuel Hm Hf Hlen. destruct fuel as [|f]; [lia|].
-  destruct (HL m rest f Hm) as (n & Hn & ->); [|lia|].
-  - apply follow_ok_mono with (m := m); [exact Hf|]. destruct (R_tail_ge _ _ _ _ HR); lia.
-  - apply loop_stop; [exact Hf|lia].
-Qed.
 
 Lemma follow_bin o m r : (blevel o < m)%nat -> follow_ok m (TOp (bintok o) :: r).
 Proof. intros H. right. exists (FBin o), r. split; [reflexivity|exact H]. Qed.
 
-Theorem render_L : forall q e ts tq, R q e ts tq -> Lstmt q e ts tq.
+Section Generic.
+  Variable Inp : Type.
+  Variable lx : lexer Inp.
+  Variable enc cont : T -> Inp.
+  Variable okid : str -> Prop.
+  Variable oknum : Z -> Prop.
+  Variable opok : str -> Prop.                       (* operator texts that do not start with a blank *)
+  Variable rec_good : (nat -> Inp -> pres aexpr Inp) -> Prop.   (* what the facts need from the recursive parser *)
+
+  (** the first token of [s] is lexically valid (so that [_] before it stops at it) *)
+  Definition first_ok (s : T) : Prop :=
+    match s with
+    | TNum z :: _ => oknum z
+    | TId x :: _ => okid x
+    | TOp o :: _ => opok o
+    | [] => False
+    end.
+
+  Notation P := (first_pre Inp lx).
+  Notation Q := (first_post Inp lx).
+  Notation gparse := (parse Inp lx arith_table).
+  Notation gloop := (infix_loop Inp lx arith_table).
+  Notation rec_t := (nat -> Inp -> pres aexpr Inp).
+
+  Record table_facts : Prop := {
+    tf_size : forall r, (length r <= lx_size lx (cont r))%nat;
+    tf_num : forall (rec : rec_t) z r, oknum z -> P rec 0 arith_table (enc (TNum z :: r)) = PMatch (ELit z) (cont r);
+    tf_opok : forall o, In o [lit "("; lit "++"; lit "--"; lit "!"; lit "~"; lit "+"; lit "-"] -> opok o;
+    tf_rec_good : forall f, (1 <= f)%nat -> rec_good (parse Inp lx arith_table f);
+    tf_ref : forall (rec : rec_t) x r, rec_good rec -> okid x -> (r = [] \/ exists f r', r = tok_of_f f :: r') ->
+      P rec 0 arith_table (enc (TId x :: r)) = PMatch (ERef x None) (cont r);
+    tf_preinc : forall (rec : rec_t) x r, okid x ->
+      P rec 0 arith_table (enc (TOp (lit "++") :: TId x :: r)) = PMatch (EIncr PreInc x None) (cont r);
+    tf_predec : forall (rec : rec_t) x r, okid x ->
+      P rec 0 arith_table (enc (TOp (lit "--") :: TId x :: r)) = PMatch (EIncr PreDec x None) (cont r);
+    tf_postinc : forall (rec : rec_t) x r, rec_good rec -> okid x ->
+      P rec 0 arith_table (enc (TId x :: TOp (lit "++") :: r)) = PMatch (EIncr PostInc x None) (cont r);
+    tf_postdec : forall (rec : rec_t) x r, rec_good rec -> okid x ->
+      P rec 0 arith_table (enc (TId x :: TOp (lit "--") :: r)) = PMatch (EIncr PostDec x None) (cont r);
+    tf_un : forall (rec : rec_t) o s a s', rec_good rec -> first_ok s -> rec (unlevel o) (enc s) = PMatch a s' ->
+      P rec 0 arith_table (enc (TOp (untok o) :: s)) = PMatch (EUn o a) s';
+    tf_assign : forall (rec : rec_t) x s rhs s', rec_good rec -> okid x -> first_ok s -> rec 1%nat (enc s) = PMatch rhs s' ->
+      P rec 0 arith_table (enc (TId x :: TOp (lit "=") :: s)) = PMatch (EAssign x None rhs) s';
+    tf_binassign : forall (rec : rec_t) o x s rhs s', rec_good rec -> has_assign o = true -> okid x -> first_ok s ->
+      rec 1%nat (enc s) = PMatch rhs s' ->
+      P rec 0 arith_table (enc (TId x :: TOp (assigntok o) :: s)) = PMatch (EBinAssign o x None rhs) s';
+    tf_paren : forall (rec : rec_t) s e s', rec_good rec -> first_ok s -> rec 0%nat (enc s) = PMatch e (cont (RP :: s')) ->
+      P rec 0 arith_table (enc (LP :: s)) = PMatch e (cont s');
+    tf_bin : forall (rec : rec_t) m left o s b s', rec_good rec -> (m <= blevel o)%nat -> first_ok s ->
+      rec (rlevel o) (enc s) = PMatch b s' ->
+      Q rec m 0 arith_table left (cont (TOp (bintok o) :: s)) = PMatch (EBin o left b) s';
+    tf_cond : forall (rec : rec_t) m left s t s1 f s2, rec_good rec -> (m <= 2)%nat -> first_ok s -> first_ok s1 ->
+      rec 0%nat (enc s) = PMatch t (cont (COL :: s1)) -> rec 2%nat (enc s1) = PMatch f s2 ->
+      Q rec m 0 arith_table left (cont (QM :: s)) = PMatch (ECond left t f) s2;
+    tf_stop : forall (rec : rec_t) m left r, rec_good rec -> follow_ok m r -> Q rec m 0 arith_table left (cont r) = PFail
+  }.
+
+  Hypothesis TF : table_facts.
+
+  Lemma gparse_S f m s : gparse (S f) m s =
+    match P (gparse f) 0 arith_table s with
+    | PMatch e rest => gloop (gparse f) (S (lx_size lx rest)) m e rest
+    | x => x
+    end.
+  Proof. reflexivity. Qed.
+
+  Lemma gloop_stop rec n m e rest : rec_good rec -> follow_ok m rest -> (1 <= n)%nat -> gloop rec n m e (cont rest) = PMatch e (cont rest).
+  Proof.
+    intros Hg Hf Hn. destruct n as [|n]; [lia|]. cbn [infix_loop]. rewrite (tf_stop TF) by assumption. reflexivity.
+  Qed.
+
+  Lemma R_first_ok q e ts tq : R q e ts tq -> lex_ok okid oknum e -> forall rest, first_ok (ts ++ rest).
+  Proof.
+    induction 1; intros Hok rest; cbn [lex_ok] in Hok; cbn [app first_ok]; try assumption;
+      try (apply (tf_opok TF); cbn; tauto).
+    - destruct o; apply (tf_opok TF); cbn; tauto.
+    - rewrite <- app_assoc. apply IHR1. tauto.
+    - rewrite <- app_assoc. apply IHR1. tauto.
+    - rewrite <- app_assoc. apply IHR1. tauto.
+    - tauto.
+    - tauto.
+  Qed.
+
+  Definition Lstmt (q : nat) (e : aexpr) (ts : T) (tq : nat) : Prop :=
+    forall m rest f, (m <= q)%nat -> follow_ok tq rest -> (length (ts ++ rest) <= f)%nat ->
+    exists n, (S (length rest) <= n)%nat /\
+              gparse (S f) m (enc (ts ++ rest)) = gloop (gparse f) n m e (cont rest).
+
+  (** (R) from (L): when the continuation cannot extend the expression at level [m], the call returns *)
+  Lemma L_to_R q e ts tq : R q e ts tq -> Lstmt q e ts tq ->
+    forall m rest fuel, (m <= q)%nat -> follow_ok m rest -> (length (ts ++ rest) < fuel)%nat ->
+    gparse fuel m (enc (ts ++ rest)) = PMatch e (cont rest).
+  Proof.
+    intros HR HL m rest fuel Hm Hf Hlen. destruct fuel as [|f]; [lia|].
+    pose proof (R_nonempty _ _ _ _ HR) as Hne. rewrite app_length in Hlen.
+    destruct (HL m rest f Hm) as (n & Hn & ->); [|rewrite app_length; lia|].
+    - apply follow_ok_mono with (m := m); [exact Hf|]. destruct (R_tail_ge _ _ _ _ HR); lia.
+    - apply gloop_stop; [apply (tf_rec_good TF); lia|exact Hf|lia].
+  Qed.
+
+  Lemma app_nonempty (a b : T) : (1 <= length a)%nat -> a ++ b <> [].
+  Proof. destruct a; cbn; [lia|discriminate]. Qed.
+
+  Theorem render_L : forall q e ts tq, R q e ts tq -> lex_ok okid oknum e -> Lstmt q e ts tq.
+  Proof.
+    induction 1 as [q e ts tq0 HR IH | q z | q x | q x | q x | q x | q x
+                   | q o a ts tq0 Hq HR IH
+                   | q o a b tsa tsb tqa tqb Hassoc Hq HRa IHa HRb IHb
+                   | q o a b tsa tsb tqa tqb Hassoc Hq HRa IHa HRb IHb
+                   | q c t fe tsc tst tsf tqc tqt tqf Hq HRc IHc HRt IHt HRf IHf
+                   | q x rhs ts tq0 Hq HR IH
+                   | q o x rhs ts tq0 Ho Hq HR IH];
+      intros Hok m rest fu Hm Hfol Hlen; cbn [lex_ok] in Hok;
+      assert (Hg : forall k, (k <= length rest)%nat -> (1 + k <= fu)%nat -> rec_good (gparse fu))
+        by (intros k _ Hk; apply (tf_rec_good TF); lia).
+    - (* parentheses *)
+      exists (S (lx_size lx (cont rest))). split; [pose proof (tf_size TF rest); lia|].
+      cbn [app] in *. rewrite <- app_assoc in *. cbn [app] in *. rewrite gparse_S.
+      pose proof (R_nonempty _ _ _ _ HR) as Hne.
+      rewrite (tf_paren TF (gparse fu) _ e rest); [reflexivity|apply (tf_rec_good TF); cbn [length] in Hlen; lia
+        |apply (R_first_ok _ _ _ _ HR Hok)|].
+      apply (L_to_R _ _ _ _ HR (IH Hok)); [lia| |cbn [length] in Hlen; lia].
+      right. exists FRP, rest. split; [reflexivity|exact I].
+    - exists (S (lx_size lx (cont rest))). split; [pose proof (tf_size TF rest); lia|].
+      cbn [app]. rewrite gparse_S. rewrite (tf_num TF) by exact Hok. reflexivity.
+    - exists (S (lx_size lx (cont rest))). split; [pose proof (tf_size TF rest); lia|].
+      cbn [app]. rewrite gparse_S. rewrite (tf_ref TF); [reflexivity|apply (tf_rec_good TF); cbn [app length] in Hlen; lia|exact Hok|].
+      destruct Hfol as [->|(f0 & r & -> & _)]; [left; reflexivity|right; exists f0, r; reflexivity].
+    - exists (S (lx_size lx (cont rest))). split; [pose proof (tf_size TF rest); lia|].
+      cbn [app]. rewrite gparse_S. rewrite (tf_preinc TF) by exact Hok. reflexivity.
+    - exists (S (lx_size lx (cont rest))). split; [pose proof (tf_size TF rest); lia|].
+      cbn [app]. rewrite gparse_S. rewrite (tf_predec TF) by exact Hok. reflexivity.
+    - exists (S (lx_size lx (cont rest))). split; [pose proof (tf_size TF rest); lia|].
+      cbn [app]. rewrite gparse_S.
+      rewrite (tf_postinc TF); [reflexivity|apply (tf_rec_good TF); cbn [app length] in Hlen; lia|exact Hok].
+    - exists (S (lx_size lx (cont rest))). split; [pose proof (tf_size TF rest); lia|].
+      cbn [app]. rewrite gparse_S.
+      rewrite (tf_postdec TF); [reflexivity|apply (tf_rec_good TF); cbn [app length] in Hlen; lia|exact Hok].
+    - (* unary *)
+      exists (S (lx_size lx (cont rest))). split; [pose proof (tf_size TF rest); lia|].
+      cbn [app]. rewrite gparse_S.
+      pose proof (R_nonempty _ _ _ _ HR) as Hne.
+      rewrite (tf_un TF (gparse fu) o _ a (cont rest)); [reflexivity|apply (tf_rec_good TF); cbn [app length] in Hlen; lia
+        |apply (R_first_ok _ _ _ _ HR Hok)|].
+      apply (L_to_R _ _ _ _ HR (IH Hok)); [destruct o; cbn; lia|exact Hfol|cbn [app length] in Hlen; lia].
+    - (* left associative binary operator *)
+      destruct Hok as [Hoka Hokb].
+      rewrite <- app_assoc in *. cbn [app] in *.
+      destruct (IHa Hoka m (TOp (bintok o) :: tsb ++ rest) fu) as (n & Hn & ->); [lia| |exact Hlen|].
+      { apply follow_bin. pose proof (R_tail _ _ _ _ HRa) as H1. pose proof (R_tail_ge _ _ _ _ HRa) as H2.
+        destruct o; cbn [blevel right_assoc] in *; try discriminate; lia. }
+      cbn [length] in Hn. destruct n as [|n]; [lia|]. exists n. split; [rewrite app_length in Hn; lia|].
+      cbn [infix_loop].
+      pose proof (R_nonempty _ _ _ _ HRa) as Hna. pose proof (R_nonempty _ _ _ _ HRb) as Hnb.
+      rewrite (tf_bin TF (gparse fu) m a o (tsb ++ rest) b (cont rest));
+        [reflexivity|apply (tf_rec_good TF); rewrite app_length in Hlen; lia|lia|apply (R_first_ok _ _ _ _ HRb Hokb)|].
+      unfold rlevel. rewrite Hassoc.
+      rewrite app_length in Hlen. cbn [length] in Hlen.
+      apply (L_to_R _ _ _ _ HRb (IHb Hokb)); [lia|exact Hfol|lia].
+    - (* right associative binary operator *)
+      destruct Hok as [Hoka Hokb].
+      rewrite <- app_assoc in *. cbn [app] in *.
+      destruct (IHa Hoka m (TOp (bintok o) :: tsb ++ rest) fu) as (n & Hn & ->); [lia| |exact Hlen|].
+      { apply follow_bin. pose proof (R_tail_ge _ _ _ _ HRa) as H2.
+        destruct o; cbn [blevel right_assoc] in *; try discriminate; lia. }
+      cbn [length] in Hn. destruct n as [|n]; [lia|]. exists n. split; [rewrite app_length in Hn; lia|].
+      cbn [infix_loop].
+      pose proof (R_nonempty _ _ _ _ HRa) as Hna. pose proof (R_nonempty _ _ _ _ HRb) as Hnb.
+      rewrite (tf_bin TF (gparse fu) m a o (tsb ++ rest) b (cont rest));
+        [reflexivity|apply (tf_rec_good TF); rewrite app_length in Hlen; lia|lia|apply (R_first_ok _ _ _ _ HRb Hokb)|].
+      unfold rlevel. rewrite Hassoc.
+      rewrite app_length in Hlen. cbn [length] in Hlen.
+      apply (L_to_R _ _ _ _ HRb (IHb Hokb)); [lia|exact Hfol|lia].
+    - (* conditional *)
+      destruct Hok as (Hokc & Hokt & Hokf).
+      rewrite <- app_assoc in *. cbn [app] in *. rewrite <- app_assoc in *. cbn [app] in *.
+      destruct (IHc Hokc m (QM :: tst ++ COL :: tsf ++ rest) fu) as (n & Hn & ->); [lia| |exact Hlen|].
+      { right. exists FQM, (tst ++ COL :: tsf ++ rest). split; [reflexivity|]. cbn.
+        destruct (R_tail_ge _ _ _ _ HRc); lia. }
+      cbn [length] in Hn. destruct n as [|n]; [lia|]. exists n.
+      split; [rewrite !app_length in Hn; cbn [length] in Hn; rewrite app_length in Hn; lia|].
+      cbn [infix_loop].
+      pose proof (R_nonempty _ _ _ _ HRc) as Hnc. pose proof (R_nonempty _ _ _ _ HRt) as Hnt.
+      pose proof (R_nonempty _ _ _ _ HRf) as Hnf.
+      rewrite !app_length in Hlen. cbn [length] in Hlen. rewrite !app_length in Hlen. cbn [length] in Hlen.
+      rewrite app_length in Hlen.
+      rewrite (tf_cond TF (gparse fu) m c (tst ++ COL :: tsf ++ rest) t (tsf ++ rest) fe (cont rest));
+        [reflexivity|apply (tf_rec_good TF); lia|lia|apply (R_first_ok _ _ _ _ HRt Hokt)|apply (R_first_ok _ _ _ _ HRf Hokf)| |].
+      + apply (L_to_R _ _ _ _ HRt (IHt Hokt)); [lia| |rewrite app_length; cbn [length]; rewrite app_length; lia].
+        right. exists FCOL, (tsf ++ rest). split; [reflexivity|exact I].
+      + apply (L_to_R _ _ _ _ HRf (IHf Hokf)); [lia|exact Hfol|rewrite app_length; lia].
+    - (* assignment *)
+      destruct Hok as [Hokx Hokr].
+      exists (S (lx_size lx (cont rest))). split; [pose proof (tf_size TF rest); lia|].
+      cbn [app]. rewrite gparse_S.
+      pose proof (R_nonempty _ _ _ _ HR) as Hne.
+      rewrite (tf_assign TF (gparse fu) x _ rhs (cont rest));
+        [reflexivity|apply (tf_rec_good TF); cbn [app length] in Hlen; lia|exact Hokx|apply (R_first_ok _ _ _ _ HR Hokr)|].
+      apply (L_to_R _ _ _ _ HR (IH Hokr)); [lia|exact Hfol|cbn [app length] in Hlen; lia].
+    - destruct Hok as [Hokx Hokr].
+      exists (S (lx_size lx (cont rest))). split; [pose proof (tf_size TF rest); lia|].
+      cbn [app]. rewrite gparse_S.
+      pose proof (R_nonempty _ _ _ _ HR) as Hne.
+      rewrite (tf_binassign TF (gparse fu) o x _ rhs (cont rest));
+        [reflexivity|apply (tf_rec_good TF); cbn [app length] in Hlen; lia|exact Ho|exact Hokx|apply (R_first_ok _ _ _ _ HR Hokr)|].
+      apply (L_to_R _ _ _ _ HR (IH Hokr)); [lia|exact Hfol|cbn [app length] in Hlen; lia].
+  Qed.
+
+  (** parse ∘ render = id, with any redundant parentheses, before any continuation that cannot
+      extend the expression at the level of the call *)
+  Theorem gparse_render : forall q e ts tq, R q e ts tq -> lex_ok okid oknum e ->
+    forall m rest fuel, (m <= q)%nat -> follow_ok m rest -> (length (ts ++ rest) < fuel)%nat ->
+    gparse fuel m (enc (ts ++ rest)) = PMatch e (cont rest).
+  Proof. intros q e ts tq HR Hok. apply (L_to_R _ _ _ _ HR). apply render_L; assumption. Qed.
+End Generic.
+
+(** ** the token instance *)
+Lemma lex_ok_true e : lex_ok (fun _ => True) (fun _ => True) e.
 Proof.
-  induction 1 as [q e ts tq0 HR IH | q z | q x | q x | q x | q x | q x
-                 | q o a ts tq0 Hq HR IH
-                 | q o a b tsa tsb tqa tqb Hassoc Hq HRa IHa HRb IHb
-                 | q o a b tsa tsb tqa tqb Hassoc Hq HRa IHa HRb IHb
-                 | q c t fe tsc tst tsf tqc tqt tqf Hq HRc IHc HRt IHt HRf IHf
-                 | q x rhs ts tq0 Hq HR IH
-                 | q o x rhs ts tq0 Ho Hq HR IH];
-    intros m rest fu Hm Hfol Hlen.
-  - (* parentheses *)
-    exists (S (length rest)). split; [lia|].
-    cbn [app] in *. rewrite <- app_assoc in *. cbn [app] in *. rewrite tparse_S.
-    rewrite (pre_paren (tparse fu) _ e rest); [reflexivity|].
-    apply (L_to_R _ _ _ _ HR IH); [lia| |cbn [length] in Hlen; lia].
-    right. exists FRP, rest. split; [reflexivity|exact I].
-  - exists (S (length rest)). split; [lia|]. cbn [app]. rewrite tparse_S. rewrite pre_num. reflexivity.
-  - exists (S (length rest)). split; [lia|]. cbn [app]. rewrite tparse_S.
-    rewrite pre_ref; [reflexivity|].
-    destruct Hfol as [->|(f0 & r & -> & _)]; [left; left; reflexivity|right; exists f0, r; reflexivity].
-  - exists (S (length rest)). split; [lia|]. cbn [app]. rewrite tparse_S. rewrite pre_preinc. reflexivity.
-  - exists (S (length rest)). split; [lia|]. cbn [app]. rewrite tparse_S. rewrite pre_predec. reflexivity.
-  - exists (S (length rest)). split; [lia|]. cbn [app]. rewrite tparse_S. rewrite pre_postinc. reflexivity.
-  - exists (S (length rest)). split; [lia|]. cbn [app]. rewrite tparse_S. rewrite pre_postdec. reflexivity.
-  - (* unary *)
-    exists (S (length rest)). split; [lia|]. cbn [app]. rewrite tparse_S.
-    rewrite (pre_un (tparse fu) o _ a rest); [reflexivity|].
-    apply (L_to_R _ _ _ _ HR IH); [destruct o; cbn; lia|exact Hfol|cbn [app length] in Hlen; lia].
-  - (* left associative binary operator *)
-    rewrite <- app_assoc in *. cbn [app] in *.
-    destruct (IHa m (TOp (bintok o) :: tsb ++ rest) fu) as (n & Hn & ->); [lia| |exact Hlen|].
-    { apply follow_bin. pose proof (R_tail _ _ _ _ HRa) as H1. pose proof (R_tail_ge _ _ _ _ HRa) as H2.
-      destruct o; cbn [blevel right_assoc] in *; try discriminate; lia. }
-    cbn [length] in Hn. destruct n as [|n]; [lia|]. exists n. split; [rewrite app_length in Hn; lia|].
-    cbn [infix_loop].
-    rewrite (post_bin (tparse fu) m a o (tsb ++ rest) b rest); [reflexivity|lia|].
-    unfold rlevel. rewrite Hassoc.
-    pose proof (R_nonempty _ _ _ _ HRa) as Hna.
-    rewrite app_length in Hlen. cbn [length] in Hlen.
-    apply (L_to_R _ _ _ _ HRb IHb); [lia|exact Hfol|lia].
-  - (* right associative binary operator *)
-    rewrite <- app_assoc in *. cbn [app] in *.
-    destruct (IHa m (TOp (bintok o) :: tsb ++ rest) fu) as (n & Hn & ->); [lia| |exact Hlen|].
-    { apply follow_bin. pose proof (R_tail_ge _ _ _ _ HRa) as H2.
-      destruct o; cbn [blevel right_assoc] in *; try discriminate; lia. }
-    cbn [length] in Hn. destruct n as [|n]; [lia|]. exists n. split; [rewrite app_length in Hn; lia|].
-    cbn [infix_loop].
-    rewrite (post_bin (tparse fu) m a o (tsb ++ rest) b rest); [reflexivity|lia|].
-    unfold rlevel. rewrite Hassoc.
-    pose proof (R_nonempty _ _ _ _ HRa) as Hna.
-    rewrite app_length in Hlen. cbn [length] in Hlen.
-    apply (L_to_R _ _ _ _ HRb IHb); [lia|exact Hfol|lia].
-  - (* conditional *)
-    rewrite <- app_assoc in *. cbn [app] in *. rewrite <- app_assoc in *. cbn [app] in *.
-    destruct (IHc m (QM :: tst ++ COL :: tsf ++ rest) fu) as (n & Hn & ->); [lia| |exact Hlen|].
-    { right. exists FQM, (tst ++ COL :: tsf ++ rest). split; [reflexivity|]. cbn.
-      destruct (R_tail_ge _ _ _ _ HRc); lia. }
-    cbn [length] in Hn. destruct n as [|n]; [lia|]. exists n.
-    split; [rewrite !app_length in Hn; cbn [length] in Hn; rewrite app_length in Hn; lia|].
-    cbn [infix_loop].
-    pose proof (R_nonempty _ _ _ _ HRc) as Hnc. pose proof (R_nonempty _ _ _ _ HRt) as Hnt.
-    rewrite !app_length in Hlen. cbn [length] in Hlen. rewrite !app_length in Hlen. cbn [length] in Hlen.
-    rewrite app_length in Hlen.
-    rewrite (post_cond (tparse fu) m c (tst ++ COL :: tsf ++ rest) t (tsf ++ rest) fe rest); [reflexivity|lia| |].
-    + apply (L_to_R _ _ _ _ HRt IHt); [lia| |rewrite app_length; cbn [length]; rewrite app_length; lia].
-      right. exists FCOL, (tsf ++ rest). split; [reflexivity|exact I].
-    + apply (L_to_R _ _ _ _ HRf IHf); [lia|exact Hfol|rewrite app_length; lia].
-  - (* assignment *)
-    exists (S (length rest)). split; [lia|]. cbn [app]. rewrite tparse_S.
-    rewrite (pre_assign (tparse fu) x _ rhs rest); [reflexivity|].
-    apply (L_to_R _ _ _ _ HR IH); [lia|exact Hfol|cbn [app length] in Hlen; lia].
-  - exists (S (length rest)). split; [lia|]. cbn [app]. rewrite tparse_S.
-    rewrite (pre_binassign (tparse fu) o x _ rhs rest); [reflexivity|exact Ho|].
-    apply (L_to_R _ _ _ _ HR IH); [lia|exact Hfol|cbn [app length] in Hlen; lia].
+  induction e using aexpr_ind'; cbn; auto.
 Qed.
 
-(** parse ∘ render = id, with any redundant parentheses, before any continuation that cannot
-    extend the expression at the level of the call *)
+Lemma tok_facts : table_facts T tok_lexer (fun s => s) (fun s => s) (fun _ => True) (fun _ => True)
+                                (fun _ => True) (fun _ => True).
+Proof.
+  constructor.
+  - intros r. cbn. lia.
+  - intros. apply pre_num.
+  - intros; exact I.
+  - intros; exact I.
+  - intros rec x r _ _ [->|H]; apply pre_ref; [left; left; reflexivity|right; exact H].
+  - intros. apply pre_preinc.
+  - intros. apply pre_predec.
+  - intros. apply pre_postinc.
+  - intros. apply pre_postdec.
+  - intros rec o s a s' _ _ H. apply pre_un. exact H.
+  - intros rec x s rhs s' _ _ _ H. apply pre_assign. exact H.
+  - intros rec o x s rhs s' _ Ho _ _ H. apply pre_binassign; assumption.
+  - intros rec s e s' _ _ H. apply pre_paren. exact H.
+  - intros rec m left o s b s' _ Hm _ H. apply post_bin; assumption.
+  - intros rec m left s t s1 f s2 _ Hm _ _ Ht Hf. eapply post_cond; eassumption.
+  - intros. apply post_stop. assumption.
+Qed.
+
 Theorem tparse_render : forall q e ts tq, R q e ts tq ->
   forall m rest fuel, (m <= q)%nat -> follow_ok m rest -> (length (ts ++ rest) < fuel)%nat ->
   tparse fuel m (ts ++ rest) = PMatch e rest.
-Proof. intros q e ts tq HR. apply (L_to_R _ _ _ _ HR). apply render_L. exact HR. Qed.
+Proof.
+  intros q e ts tq HR. apply (gparse_render T tok_lexer (fun s => s) (fun s => s) _ _ _ _ tok_facts _ _ _ _ HR).
+  apply lex_ok_true.
+Qed.
 
 (** the whole input: [full_expression] over tokens *)
 Theorem tparse_full_render : forall e ts tq, R 0 e ts tq ->
